@@ -211,3 +211,34 @@ def sampling(draw, in_shape, per_axis=True):
     du_r = a_r * wl * z * os_ / dx_r
     du_c = a_c * wl * z * os_ / dx_c
     return {"wavelength": wl, "z": z, "oversample": os_, "dx": (dx_r, dx_c), "du": (du_r, du_c)}
+
+
+# ---------------------------------------------------------------------------
+# memory layout of caller arrays (value-preserving)
+
+LAYOUTS = ["C", "C", "F", "strided", "reversed", "transposed_view"]
+
+
+def layouts():
+    return st.sampled_from(LAYOUTS)
+
+
+def relayout(a, kind):
+    """Return an array equal to ``a`` element for element but stored differently:
+    Fortran order, a strided view into a larger buffer, a negatively strided view, or the
+    transpose view of a C-ordered transpose."""
+    a = np.asarray(a)
+    if kind in (None, "C") or a.ndim < 2:
+        return np.ascontiguousarray(a) if kind == "C" else a
+    if kind == "F":
+        return np.asfortranarray(a)
+    if kind == "transposed_view":
+        return np.ascontiguousarray(np.swapaxes(a, -1, -2)).swapaxes(-1, -2)
+    if kind == "strided":
+        big = np.zeros(a.shape[:-2] + (2 * a.shape[-2], 2 * a.shape[-1] + 1), dtype=a.dtype)
+        view = big[..., ::2, 1::2]
+        view[...] = a
+        return view
+    if kind == "reversed":
+        return np.ascontiguousarray(a[..., ::-1, ::-1])[..., ::-1, ::-1]
+    raise ValueError(kind)
